@@ -596,7 +596,7 @@ def check_seq_cache_light(ctx, prop):
 
 
 def check_c06(ctx):
-    run_conc(ctx, cache_scenarios(ctx, ALL_CACHES, pick=("G1", "G2", "G5", "G6", "G7", "G8", "G9b-visitor-del")), "Trace_CacheLin", "C06", "cache removers")
+    run_conc(ctx, cache_scenarios(ctx, ALL_CACHES, pick=("G1", "G2", "G5", "G6", "G7", "G8", "G9b-visitor-del")), "Trace_CacheLin", "C06", "cache removers", c13=True)  # "the callback runs outside internal locks": a re-entrant callback that hangs is a C06 violation too
     check_seq_cache_light(ctx, "C06")
 
 
